@@ -410,7 +410,9 @@ where
             if buf.ends_with(LINE_FEED) {
                 buf.pop();
 
-                if buf.ends_with(CARRIAGE_RETURN) {
+                // The buffer may already hold data: only a carriage return read by this call is
+                // part of the line ending.
+                if n > 1 && buf.ends_with(CARRIAGE_RETURN) {
                     buf.pop();
                 }
             }
